@@ -18,6 +18,7 @@ import UnytModel.Generated.DtypeTables
 import UnytModel.Generated.FactorTables
 import UnytModel.Ops.C17Factor
 import UnytProofs.Lemmas.C17
+import UnytProofs.Lemmas.C17Factor
 
 set_option linter.unusedSectionVars false
 set_option linter.unusedVariables false
@@ -64,6 +65,35 @@ theorem unit_table_factor_kinds_listed :
   have h2 := h b hb
   simp only [List.contains_iff_mem] at h1 h2
   exact hk _ h1 _ h2
+
+/-- … and so has the factor of a conversion between **any two `Unit` objects** over the table — bare
+    symbols, parsed compound expressions, units built by arithmetic (their base value went through
+    `float(...)`) -/
+theorem any_units_factor_kind_listed (a b : UnitShape) (k : FactorKind)
+    (h : shapeFactorKind liveUnitBaseKinds a b = some k) : k ∈ factorKinds := by
+  have hk : ∀ x ∈ F.baseKinds, ∀ y ∈ F.baseKinds, ratioKind x y ∈ factorKinds := by decide +kernel
+  have hpy : BaseKind.pyfloat ∈ F.baseKinds := by decide +kernel
+  have hall := unit_table_base_kinds_listed
+  rw [List.all_eq_true] at hall
+  have hb : ∀ u : UnitShape, ∀ x, shapeBaseKind liveUnitBaseKinds u = some x → x ∈ F.baseKinds := by
+    intro u x hu
+    cases u with
+    | other => simp [shapeBaseKind] at hu; subst hu; exact hpy
+    | symbol s =>
+      simp only [shapeBaseKind] at hu
+      have hm : (s, x) ∈ liveUnitBaseKinds := Unyt.C17FL.mem_of_lookup _ _ _ hu
+      have := hall (s, x) hm
+      simpa [List.contains_iff_mem] using this
+  unfold shapeFactorKind at h
+  cases ha : shapeBaseKind liveUnitBaseKinds a with
+  | none => simp [ha] at h
+  | some x =>
+    cases hb' : shapeBaseKind liveUnitBaseKinds b with
+    | none => simp [ha, hb'] at h
+    | some y =>
+      simp [ha, hb'] at h
+      subst h
+      exact hk x (hb a x ha) y (hb b y hb')
 
 /-- the model's typing of `old / new` is what Python/NumPy answer on live base values, for every
     pair of base kinds of the table -/
@@ -120,6 +150,26 @@ theorem float_and_complex_stay_any_factor :
   decide +kernel
 
 example : FactorKind.npfloat 8 ∈ factorKinds ∧ (⟨.f, 4⟩ : Dtype) ∈ scope := by decide +kernel
+
+/-- **headline**: a conversion between any two `Unit` objects over the live table (whatever the type
+    of the factor they produce), of data of any integer / unsigned / float / complex dtype, returns the
+    required dtype on the copying routes, the same dtype or `ValueError` (1-byte integers only) on the
+    in-place route -/
+theorem conversion_dtype_any_units (a b : UnitShape) (k : FactorKind)
+    (h : shapeFactorKind liveUnitBaseKinds a b = some k) :
+    ∀ d ∈ scope,
+      eqOutF (copyDtypeStaged N P F R.copyCastKinds.contains k d) (.ok (expectedDtype d)) = true
+      ∧ eqOutF (inBaseDtypeStaged N P F R.inBaseCastKinds.contains k d) (.ok (expectedDtype d)) = true
+      ∧ eqOutF (convertToUnitsDtypeF N P F k d)
+          (if mayRaise d then .error .ValueError else .ok (expectedDtype d)) = true := by
+  intro d hd
+  have hk := any_units_factor_kind_listed a b k h
+  exact ⟨copy_route_dtype_any_factor k hk d hd, in_base_dtype_any_factor k hk d hd,
+         inplace_route_dtype_any_factor k hk d hd⟩
+
+example : shapeFactorKind liveUnitBaseKinds (.symbol "m") (.symbol "l_pl") = some (.npfloat 8)
+    ∧ shapeFactorKind liveUnitBaseKinds .other (.symbol "dB") = some (.npfloat 8)
+    ∧ shapeFactorKind liveUnitBaseKinds (.symbol "Wh") .other = some .pyfloat := by decide +kernel
 
 /-- the type of the factor is irrelevant to the dtype: every route gives the same outcome for
     every two factor kinds -/
